@@ -55,7 +55,10 @@ def run(ctx):
         files = [os.path.join(vf.VERIF, "corpus", "C27", "row20_triple_cancel.json")]
         wit = os.path.join(ctx.work, "lost_resume_witness.json")
         json.dump({"case": {"id": 0, "op": "c27", "l": [0, 1, 1, 1, 0, 2], "p": {"seq": 1, "delay1": 0, "delay2": 25}, "s": {"script": "O"}}}, open(wit, "w"))
-        jobs = [[h, "c27", "-replay", f] for f in files] + [[h, "c27", "-replay", wit]] * 8
+        # two pause signals and one resume signal pending (two Forgets of the last subscription, then Subscribe)
+        wit2 = os.path.join(ctx.work, "lost_resume_witness2.json")
+        json.dump({"case": {"id": 0, "op": "c27", "l": [0, 1, 1, 1, 1, 1, 0, 2], "p": {"seq": 1, "delay1": 0, "delay2": 25, "delay3": 60}, "s": {"script": "O"}}}, open(wit2, "w"))
+        jobs = [[h, "c27", "-replay", f] for f in files] + [[h, "c27", "-replay", wit]] * 8 + [[h, "c27", "-replay", wit2]] * 10
         import concurrent.futures
         with concurrent.futures.ThreadPoolExecutor(max_workers=6) as ex:
             for rc, out in ex.map(lambda j: vf.sh(j, timeout=300, env=vf.GOENV), jobs):
@@ -105,7 +108,7 @@ def run(ctx):
             p, s = prog_term(o["case"])
             lines.append("(%s, %s, ([%s], %s, [%s]))" % (p, s, ";".join(b(x) for x in o["done"]), b(o["outstanding"]), ";".join(str(x) for x in o["subs"])))
         okc, idx, clog = ctx.eval_cases(IMPORTS, "list op * list pub_outcome * (list bool * bool * list nat)", lines,
-                                        "  let '(prog, scr, (d, outst, ss)) := c in existsb (matches d outst ss) (terminals sub_params 60000 (init scr prog))",
+                                        "  let '(prog, scr, (d, outst, ss)) := c in existsb (matches d outst ss) (terminals sub_params 60000 (init sub_params scr prog))",
                                         shard=max(1, (len(lines) + 7) // 8), timeout=1200)
         if not okc:
             corr_ok = False
@@ -126,7 +129,7 @@ def run(ctx):
     ctx.coverage.update({
         "evaluations": len(obs),
         "distinct_nontrivial": len(progs),
-        "rule": "programs: Subscribe 1 sequentially, then 2..4 concurrent operations drawn from {Subscribe, ForgetSubscription, Cancel} x ids {1,2} with seeded start delays, publish scripts of 0..3 answers (first answer held until the calls are issued); plus 3 stress runs (48 subscriptions, 4 goroutines write-locking subMux, a PublishResponse with a Bad ServiceResult and SubscriptionID 0), the corpus witness of the fixed deadlock and 8 runs of the lost-resume witness; one child process per program; distinct = distinct (operation list, script)",
+        "rule": "programs: Subscribe 1 sequentially, then 2..4 concurrent operations drawn from {Subscribe, ForgetSubscription, Cancel} x ids {1,2} with seeded start delays, publish scripts of 0..3 answers (first answer held until the calls are issued); plus 3 stress runs (48 subscriptions, 4 goroutines write-locking subMux, a PublishResponse with a Bad ServiceResult and SubscriptionID 0), the corpus witness of the fixed deadlock and 8 + 10 runs of the two lost-resume witnesses (the defect is fixed: they must end publishing); one child process per program; distinct = distinct (operation list, script)",
         "samples": [{k: o.get(k) for k in ("case", "done", "outstanding", "subs", "subs_blocked")} for o in usable[:3] + usable[-2:]],
         "terminal_classes": dict(collections.Counter("done=%s outstanding=%s subs=%d" % (all(o["done"]), o["outstanding"], len(o["subs"])) for o in usable)),
         "traces_validated_against_impl": len(usable),
